@@ -135,3 +135,295 @@ func verifAssume(cond bool) {}
 //@   props C11
 //@   requires cmd != nil && validMethod(cmd.Method) && s != nil
 //@   modifies nothing
+
+// ---------------------------------------------------------------------------
+// C20 - each inbound envelope is dispatched to exactly the first matching handler
+// ---------------------------------------------------------------------------
+// Ghost record on the envelope object: how many times a handler was invoked
+// with it during this dispatch, by which handler, with which context/sender,
+// and what it returned. Only the contracts of Handle (interface) and of the
+// handler-function callbacks update it.
+
+//@ struct Message
+//@   ghost field nHandled int
+//@   ghost field lastHandler MessageHandler
+//@   ghost field lastCtx context.Context
+//@   ghost field lastSender Sender
+//@   ghost field lastErr error
+//@   ghost field nFuncCalls int
+//@   ghost field lastFuncCtx context.Context
+//@   ghost field lastFuncSender Sender
+//@   ghost field lastFuncErr error
+
+//@ spec fn matchMsg(h MessageHandler, e *Message) bool = uninterpreted
+//@ spec fn rec firstMsg(hs []MessageHandler, e *Message, k int) int = ite(k >= len(hs), -1, ite(matchMsg(hs[k], e), k, firstMsg(hs, e, k+1)))
+
+//@ spec fn rec nonNilMsg(hs []MessageHandler, k int) bool = k >= len(hs) || (hs[k] != nil && nonNilMsg(hs, k+1))
+
+//@ interface MessageHandler
+//@ method MessageHandler.Match(h, msg) (result)
+//@   pure
+//@   ensures result == matchMsg(h, msg)
+//@   note predicates are deterministic and side-effect free for the duration of one dispatch
+//@ method MessageHandler.Handle(h, ctx, msg, s) (err)
+//@   requires msg != nil
+//@   modifies msg.nHandled, msg.lastHandler, msg.lastCtx, msg.lastSender, msg.lastErr
+//@   ensures msg.nHandled == old(msg.nHandled) + 1 && msg.lastHandler == h && msg.lastCtx == ctx && msg.lastErr == err
+//@   ensures msg.lastSender == s
+//@   note handlers do not mutate the mux or the channel structures
+
+//@ func (*EnvelopeMux).handleMessage
+//@   props C20
+//@   requires m != nil && msg != nil
+//@   requires nonNilMsg(m.msgHandlers, 0)  ## representation invariant of the mux: no nil handler is registered
+//@   loop 0 invariant old(nonNilMsg(m.msgHandlers, it_))
+//@   modifies msg.nHandled, msg.lastHandler, msg.lastCtx, msg.lastSender, msg.lastErr
+//@   loop 0 invariant 0 <= it_ && it_ <= len(old(m.msgHandlers))
+//@   loop 0 invariant old(firstMsg(m.msgHandlers, msg, 0)) == old(firstMsg(m.msgHandlers, msg, it_))
+//@   loop 0 invariant msg.nHandled == old(msg.nHandled)
+//@   ensures @none old(firstMsg(m.msgHandlers, msg, 0)) == -1 ==> result == nil && msg.nHandled == old(msg.nHandled)
+//@   ensures @once old(firstMsg(m.msgHandlers, msg, 0)) >= 0 ==> msg.nHandled == old(msg.nHandled) + 1
+//@   ensures @first old(firstMsg(m.msgHandlers, msg, 0)) >= 0 ==> msg.lastHandler == old(m.msgHandlers[firstMsg(m.msgHandlers, msg, 0)])
+//@   ensures @args old(firstMsg(m.msgHandlers, msg, 0)) >= 0 ==> msg.lastCtx == ctx && msg.lastSender == s
+//@   ensures @err old(firstMsg(m.msgHandlers, msg, 0)) >= 0 ==> ((result != nil) == (msg.lastErr != nil))
+
+//@ callback role MsgPredicate(msg) (result) : field messageHandler.predicate
+//@   modifies nothing
+//@ callback role MsgHandlerFunc(ctx, msg, s) (err) : field messageHandler.handlerFunc
+//@   requires msg != nil
+//@   modifies msg.nFuncCalls, msg.lastFuncCtx, msg.lastFuncSender, msg.lastFuncErr
+//@   ensures msg.nFuncCalls == old(msg.nFuncCalls) + 1 && msg.lastFuncCtx == ctx && msg.lastFuncErr == err
+//@   ensures msg.lastFuncSender == s
+
+//@ func (*messageHandler).Match
+//@   props C20
+//@   requires h != nil
+//@   ensures h.predicate == nil ==> result == true
+//@   modifies nothing
+
+//@ func (*messageHandler).Handle
+//@   props C20
+//@   requires h != nil && h.handlerFunc != nil && msg != nil
+//@   modifies msg.nFuncCalls, msg.lastFuncCtx, msg.lastFuncSender, msg.lastFuncErr
+//@   ensures msg.nFuncCalls == old(msg.nFuncCalls) + 1 && msg.lastFuncCtx == ctx && msg.lastFuncErr == result
+//@   ensures msg.lastFuncSender == s
+
+//@ func (*EnvelopeMux).MessageHandler
+//@   props C20
+//@   requires m != nil && handler != nil
+//@   modifies m.msgHandlers
+//@   ensures len(m.msgHandlers) == old(len(m.msgHandlers)) + 1
+//@   ensures m.msgHandlers[old(len(m.msgHandlers))] == handler
+
+//@ struct Notification
+//@   ghost field nHandled int
+//@   ghost field lastHandler NotificationHandler
+//@   ghost field lastCtx context.Context
+//@   ghost field lastSender Sender
+//@   ghost field lastErr error
+//@   ghost field nFuncCalls int
+//@   ghost field lastFuncCtx context.Context
+//@   ghost field lastFuncSender Sender
+//@   ghost field lastFuncErr error
+
+//@ spec fn matchNot(h NotificationHandler, e *Notification) bool = uninterpreted
+//@ spec fn rec firstNot(hs []NotificationHandler, e *Notification, k int) int = ite(k >= len(hs), -1, ite(matchNot(hs[k], e), k, firstNot(hs, e, k+1)))
+
+//@ spec fn rec nonNilNot(hs []NotificationHandler, k int) bool = k >= len(hs) || (hs[k] != nil && nonNilNot(hs, k+1))
+
+//@ interface NotificationHandler
+//@ method NotificationHandler.Match(h, not) (result)
+//@   pure
+//@   ensures result == matchNot(h, not)
+//@   note predicates are deterministic and side-effect free for the duration of one dispatch
+//@ method NotificationHandler.Handle(h, ctx, not) (err)
+//@   requires not != nil
+//@   modifies not.nHandled, not.lastHandler, not.lastCtx, not.lastSender, not.lastErr
+//@   ensures not.nHandled == old(not.nHandled) + 1 && not.lastHandler == h && not.lastCtx == ctx && not.lastErr == err
+
+//@   note handlers do not mutate the mux or the channel structures
+
+//@ func (*EnvelopeMux).handleNotification
+//@   props C20
+//@   requires m != nil && not != nil
+//@   requires nonNilNot(m.notHandlers, 0)  ## representation invariant of the mux: no nil handler is registered
+//@   loop 0 invariant old(nonNilNot(m.notHandlers, it_))
+//@   modifies not.nHandled, not.lastHandler, not.lastCtx, not.lastSender, not.lastErr
+//@   loop 0 invariant 0 <= it_ && it_ <= len(old(m.notHandlers))
+//@   loop 0 invariant old(firstNot(m.notHandlers, not, 0)) == old(firstNot(m.notHandlers, not, it_))
+//@   loop 0 invariant not.nHandled == old(not.nHandled)
+//@   ensures @none old(firstNot(m.notHandlers, not, 0)) == -1 ==> result == nil && not.nHandled == old(not.nHandled)
+//@   ensures @once old(firstNot(m.notHandlers, not, 0)) >= 0 ==> not.nHandled == old(not.nHandled) + 1
+//@   ensures @first old(firstNot(m.notHandlers, not, 0)) >= 0 ==> not.lastHandler == old(m.notHandlers[firstNot(m.notHandlers, not, 0)])
+//@   ensures @args old(firstNot(m.notHandlers, not, 0)) >= 0 ==> not.lastCtx == ctx
+//@   ensures @err old(firstNot(m.notHandlers, not, 0)) >= 0 ==> ((result != nil) == (not.lastErr != nil))
+
+//@ callback role NotPredicate(not) (result) : field notificationHandler.predicate
+//@   modifies nothing
+//@ callback role NotHandlerFunc(ctx, not) (err) : field notificationHandler.handlerFunc
+//@   requires not != nil
+//@   modifies not.nFuncCalls, not.lastFuncCtx, not.lastFuncSender, not.lastFuncErr
+//@   ensures not.nFuncCalls == old(not.nFuncCalls) + 1 && not.lastFuncCtx == ctx && not.lastFuncErr == err
+
+
+//@ func (*notificationHandler).Match
+//@   props C20
+//@   requires h != nil
+//@   ensures h.predicate == nil ==> result == true
+//@   modifies nothing
+
+//@ func (*notificationHandler).Handle
+//@   props C20
+//@   requires h != nil && h.handlerFunc != nil && not != nil
+//@   modifies not.nFuncCalls, not.lastFuncCtx, not.lastFuncSender, not.lastFuncErr
+//@   ensures not.nFuncCalls == old(not.nFuncCalls) + 1 && not.lastFuncCtx == ctx && not.lastFuncErr == result
+
+
+//@ func (*EnvelopeMux).NotificationHandler
+//@   props C20
+//@   requires m != nil && handler != nil
+//@   modifies m.notHandlers
+//@   ensures len(m.notHandlers) == old(len(m.notHandlers)) + 1
+//@   ensures m.notHandlers[old(len(m.notHandlers))] == handler
+
+//@ struct RequestCommand
+//@   ghost field nHandled int
+//@   ghost field lastHandler RequestCommandHandler
+//@   ghost field lastCtx context.Context
+//@   ghost field lastSender Sender
+//@   ghost field lastErr error
+//@   ghost field nFuncCalls int
+//@   ghost field lastFuncCtx context.Context
+//@   ghost field lastFuncSender Sender
+//@   ghost field lastFuncErr error
+
+//@ spec fn matchReqCmd(h RequestCommandHandler, e *RequestCommand) bool = uninterpreted
+//@ spec fn rec firstReqCmd(hs []RequestCommandHandler, e *RequestCommand, k int) int = ite(k >= len(hs), -1, ite(matchReqCmd(hs[k], e), k, firstReqCmd(hs, e, k+1)))
+
+//@ spec fn rec nonNilReqCmd(hs []RequestCommandHandler, k int) bool = k >= len(hs) || (hs[k] != nil && nonNilReqCmd(hs, k+1))
+
+//@ interface RequestCommandHandler
+//@ method RequestCommandHandler.Match(h, cmd) (result)
+//@   pure
+//@   ensures result == matchReqCmd(h, cmd)
+//@   note predicates are deterministic and side-effect free for the duration of one dispatch
+//@ method RequestCommandHandler.Handle(h, ctx, cmd, s) (err)
+//@   requires cmd != nil
+//@   modifies cmd.nHandled, cmd.lastHandler, cmd.lastCtx, cmd.lastSender, cmd.lastErr
+//@   ensures cmd.nHandled == old(cmd.nHandled) + 1 && cmd.lastHandler == h && cmd.lastCtx == ctx && cmd.lastErr == err
+//@   ensures cmd.lastSender == s
+//@   note handlers do not mutate the mux or the channel structures
+
+//@ func (*EnvelopeMux).handleRequestCommand
+//@   props C20
+//@   requires m != nil && cmd != nil
+//@   requires nonNilReqCmd(m.reqCmdHandlers, 0)  ## representation invariant of the mux: no nil handler is registered
+//@   loop 0 invariant old(nonNilReqCmd(m.reqCmdHandlers, it_))
+//@   modifies cmd.nHandled, cmd.lastHandler, cmd.lastCtx, cmd.lastSender, cmd.lastErr
+//@   loop 0 invariant 0 <= it_ && it_ <= len(old(m.reqCmdHandlers))
+//@   loop 0 invariant old(firstReqCmd(m.reqCmdHandlers, cmd, 0)) == old(firstReqCmd(m.reqCmdHandlers, cmd, it_))
+//@   loop 0 invariant cmd.nHandled == old(cmd.nHandled)
+//@   ensures @none old(firstReqCmd(m.reqCmdHandlers, cmd, 0)) == -1 ==> result == nil && cmd.nHandled == old(cmd.nHandled)
+//@   ensures @once old(firstReqCmd(m.reqCmdHandlers, cmd, 0)) >= 0 ==> cmd.nHandled == old(cmd.nHandled) + 1
+//@   ensures @first old(firstReqCmd(m.reqCmdHandlers, cmd, 0)) >= 0 ==> cmd.lastHandler == old(m.reqCmdHandlers[firstReqCmd(m.reqCmdHandlers, cmd, 0)])
+//@   ensures @args old(firstReqCmd(m.reqCmdHandlers, cmd, 0)) >= 0 ==> cmd.lastCtx == ctx && cmd.lastSender == s
+//@   ensures @err old(firstReqCmd(m.reqCmdHandlers, cmd, 0)) >= 0 ==> ((result != nil) == (cmd.lastErr != nil))
+
+//@ callback role ReqCmdPredicate(cmd) (result) : field requestCommandHandler.predicate
+//@   modifies nothing
+//@ callback role ReqCmdHandlerFunc(ctx, cmd, s) (err) : field requestCommandHandler.handlerFunc
+//@   requires cmd != nil
+//@   modifies cmd.nFuncCalls, cmd.lastFuncCtx, cmd.lastFuncSender, cmd.lastFuncErr
+//@   ensures cmd.nFuncCalls == old(cmd.nFuncCalls) + 1 && cmd.lastFuncCtx == ctx && cmd.lastFuncErr == err
+//@   ensures cmd.lastFuncSender == s
+
+//@ func (*requestCommandHandler).Match
+//@   props C20
+//@   requires h != nil
+//@   ensures h.predicate == nil ==> result == true
+//@   modifies nothing
+
+//@ func (*requestCommandHandler).Handle
+//@   props C20
+//@   requires h != nil && h.handlerFunc != nil && cmd != nil
+//@   modifies cmd.nFuncCalls, cmd.lastFuncCtx, cmd.lastFuncSender, cmd.lastFuncErr
+//@   ensures cmd.nFuncCalls == old(cmd.nFuncCalls) + 1 && cmd.lastFuncCtx == ctx && cmd.lastFuncErr == result
+//@   ensures cmd.lastFuncSender == s
+
+//@ func (*EnvelopeMux).RequestCommandHandler
+//@   props C20
+//@   requires m != nil && handler != nil
+//@   modifies m.reqCmdHandlers
+//@   ensures len(m.reqCmdHandlers) == old(len(m.reqCmdHandlers)) + 1
+//@   ensures m.reqCmdHandlers[old(len(m.reqCmdHandlers))] == handler
+
+//@ struct ResponseCommand
+//@   ghost field nHandled int
+//@   ghost field lastHandler ResponseCommandHandler
+//@   ghost field lastCtx context.Context
+//@   ghost field lastSender Sender
+//@   ghost field lastErr error
+//@   ghost field nFuncCalls int
+//@   ghost field lastFuncCtx context.Context
+//@   ghost field lastFuncSender Sender
+//@   ghost field lastFuncErr error
+
+//@ spec fn matchRespCmd(h ResponseCommandHandler, e *ResponseCommand) bool = uninterpreted
+//@ spec fn rec firstRespCmd(hs []ResponseCommandHandler, e *ResponseCommand, k int) int = ite(k >= len(hs), -1, ite(matchRespCmd(hs[k], e), k, firstRespCmd(hs, e, k+1)))
+
+//@ spec fn rec nonNilRespCmd(hs []ResponseCommandHandler, k int) bool = k >= len(hs) || (hs[k] != nil && nonNilRespCmd(hs, k+1))
+
+//@ interface ResponseCommandHandler
+//@ method ResponseCommandHandler.Match(h, cmd) (result)
+//@   pure
+//@   ensures result == matchRespCmd(h, cmd)
+//@   note predicates are deterministic and side-effect free for the duration of one dispatch
+//@ method ResponseCommandHandler.Handle(h, ctx, cmd, s) (err)
+//@   requires cmd != nil
+//@   modifies cmd.nHandled, cmd.lastHandler, cmd.lastCtx, cmd.lastSender, cmd.lastErr
+//@   ensures cmd.nHandled == old(cmd.nHandled) + 1 && cmd.lastHandler == h && cmd.lastCtx == ctx && cmd.lastErr == err
+//@   ensures cmd.lastSender == s
+//@   note handlers do not mutate the mux or the channel structures
+
+//@ func (*EnvelopeMux).handleResponseCommand
+//@   props C20
+//@   requires m != nil && cmd != nil
+//@   requires nonNilRespCmd(m.respCmdHandlers, 0)  ## representation invariant of the mux: no nil handler is registered
+//@   loop 0 invariant old(nonNilRespCmd(m.respCmdHandlers, it_))
+//@   modifies cmd.nHandled, cmd.lastHandler, cmd.lastCtx, cmd.lastSender, cmd.lastErr
+//@   loop 0 invariant 0 <= it_ && it_ <= len(old(m.respCmdHandlers))
+//@   loop 0 invariant old(firstRespCmd(m.respCmdHandlers, cmd, 0)) == old(firstRespCmd(m.respCmdHandlers, cmd, it_))
+//@   loop 0 invariant cmd.nHandled == old(cmd.nHandled)
+//@   ensures @none old(firstRespCmd(m.respCmdHandlers, cmd, 0)) == -1 ==> result == nil && cmd.nHandled == old(cmd.nHandled)
+//@   ensures @once old(firstRespCmd(m.respCmdHandlers, cmd, 0)) >= 0 ==> cmd.nHandled == old(cmd.nHandled) + 1
+//@   ensures @first old(firstRespCmd(m.respCmdHandlers, cmd, 0)) >= 0 ==> cmd.lastHandler == old(m.respCmdHandlers[firstRespCmd(m.respCmdHandlers, cmd, 0)])
+//@   ensures @args old(firstRespCmd(m.respCmdHandlers, cmd, 0)) >= 0 ==> cmd.lastCtx == ctx && cmd.lastSender == s
+//@   ensures @err old(firstRespCmd(m.respCmdHandlers, cmd, 0)) >= 0 ==> ((result != nil) == (cmd.lastErr != nil))
+
+//@ callback role RespCmdPredicate(cmd) (result) : field responseCommandHandler.predicate
+//@   modifies nothing
+//@ callback role RespCmdHandlerFunc(ctx, cmd, s) (err) : field responseCommandHandler.handlerFunc
+//@   requires cmd != nil
+//@   modifies cmd.nFuncCalls, cmd.lastFuncCtx, cmd.lastFuncSender, cmd.lastFuncErr
+//@   ensures cmd.nFuncCalls == old(cmd.nFuncCalls) + 1 && cmd.lastFuncCtx == ctx && cmd.lastFuncErr == err
+//@   ensures cmd.lastFuncSender == s
+
+//@ func (*responseCommandHandler).Match
+//@   props C20
+//@   requires h != nil
+//@   ensures h.predicate == nil ==> result == true
+//@   modifies nothing
+
+//@ func (*responseCommandHandler).Handle
+//@   props C20
+//@   requires h != nil && h.handlerFunc != nil && cmd != nil
+//@   modifies cmd.nFuncCalls, cmd.lastFuncCtx, cmd.lastFuncSender, cmd.lastFuncErr
+//@   ensures cmd.nFuncCalls == old(cmd.nFuncCalls) + 1 && cmd.lastFuncCtx == ctx && cmd.lastFuncErr == result
+//@   ensures cmd.lastFuncSender == s
+
+//@ func (*EnvelopeMux).ResponseCommandHandler
+//@   props C20
+//@   requires m != nil && handler != nil
+//@   modifies m.respCmdHandlers
+//@   ensures len(m.respCmdHandlers) == old(len(m.respCmdHandlers)) + 1
+//@   ensures m.respCmdHandlers[old(len(m.respCmdHandlers))] == handler
